@@ -137,10 +137,22 @@ def check_hamiltonian(ctx, seq, case=None, tour_rng=None) -> bool:
         if not (abs(v[k] - 1) < 1e-12 and np.count_nonzero(v) == 1):
             ctx.violation("basis-order", f"basis vector of {st} is not unit vector {k}", "basis-vectors", case=case)
     per = render.per_atom(chans, qids, T + 1, slm if slm else None)
-    # open EOM blocks: beyond the channel's own end the per-atom off-detuning is not defined by the statement
+    # open EOM blocks: a *global* channel left in EOM mode idles at the off-detuning of its latest setpoint until the
+    # emulation ends (C15's clause; the emulator pads its samples that way), for every atom. For a local channel the
+    # statement does not say which atoms keep it beyond the channel's own end: gray from there.
     gray_from = T + 1
     for c in chans:
-        if c["eom_off"]:
+        if not c["eom_off"]:
+            continue
+        if c["addr"] == "Global" and not c["dmm"]:
+            if c["end"] < T + 1:
+                ctx.count("open_global_eom_blocks_padded")
+                for q in qids:
+                    d = per.setdefault(c["basis"], {}).setdefault(
+                        q, {"amp": np.zeros(T + 1), "det": np.zeros(T + 1), "ncover": np.zeros(T + 1, dtype=int),
+                            "phase_one": np.full(T + 1, np.nan)})
+                    d["det"][c["end"]:] += c["eom_off"]
+        else:
             gray_from = min(gray_from, c["end"])
     # several drives of one basis on one atom: the statement defines no combined phase -> off-diagonals gray
     multi = False
